@@ -1306,6 +1306,9 @@ class CodeBuilder:
         if isinstance(expression, str):
             expression = parse(expression)
 
+        if isinstance(time, str):
+            time = parse(time)
+
         self._add_statement(YieldState(
                 expression=expression,
                 component_id=component_id,
